@@ -11,7 +11,7 @@ namespace C02
 def frameChecks (T : ScopeTable) (d : Depth) (S : Schema) : List (Frame → List Err) :=
   [strictOrderedErrors S, presenceErrors T d S, jointUniqueErrors T d S]
   ++ S.columns.map (fun c => columnErrors T d c)
-  ++ [fun D => match S.index with | some ix => indexErrors T d ix D | none => []]
+  ++ [fun D => indexPartErrors T d S D]
 
 def frameSteps (T : ScopeTable) (d : Depth) (S : Schema) : List (Step Frame Err) :=
   (frameChecks T d S).map checkStepOf
@@ -21,8 +21,7 @@ theorem lazy_run_eq_frameErrors (T : ScopeTable) (d : Depth) (S : Schema) (D : F
     runLazy (frameSteps T d S) D = (D, frameErrors T d S D) := by
   unfold frameSteps
   rw [runLazy_checks]
-  simp [frameChecks, frameErrors, List.flatten_append, Function.comp_def]
-  cases S.index <;> rfl
+  simp [frameChecks, frameErrors, coreCheckErrors, List.flatten_append, Function.comp_def]
 
 /-- **C02 (a)** lazy validation raises exactly when eager validation raises — for every
 scope table, depth, schema and frame -/
